@@ -10,6 +10,7 @@ def run(ctx):
     for cfg in (["MC_MQ_q.cfg", "MC_MQ_p40.cfg"] if ctx.quick else ["MC_MQ_q.cfg", "MC_MQ_p40.cfg", "MC_MQ_p90.cfg", "MC_MQ_t.cfg"]):
         ctx.mc("MC_MQ", cfg, timeout=3000)
     ctx.mc("MC_Dwt53", "MC_Dwt53_q.cfg" if ctx.quick else "MC_Dwt53_t.cfg", timeout=3000)
+    ctx.mc("MC_T1", "MC_T1_q.cfg" if ctx.quick else "MC_T1_t.cfg", timeout=6000)
     trace = os.path.join(wd, "trace.ndjson")
     args = ["c20", "--out", trace, "--seed", str(ctx.seed)] + (["--n", "200", "--maxdim", "40", "--exh", "1"] if ctx.quick else ["--n", "3000", "--maxdim", "257", "--exh", "2"])
     out = vlib.run_driver(drv, args, env=ctx.env())
@@ -28,6 +29,13 @@ def run(ctx):
            "lines": v1["lines"] + v2["lines"], "accepted": v1["accepted"] + v2["accepted"], "infos": v1["infos"] + v2["infos"], "classes": set()}
     steps = sum(int(i.split("=")[1]) for i in val["infos"] if i.startswith("steps="))
     fwd_info = [i for i in val["infos"] if i.startswith("forward 5/3")]
+    t1ref = {"agree": 0, "vsc": 0, "other": 0}
+    for i in val["infos"]:
+        if i.startswith("t1ref "):
+            for kv in i.split()[1:]:
+                k, v = kv.split("=")
+                t1ref[k] += int(v)
+    t1_other = [i for i in val["infos"] if i.startswith("T1 bytes not decodable")]
     classes, samples = set(), []
     with open(otf) as f:
         for line in f:
@@ -43,14 +51,20 @@ def run(ctx):
         rule="MQ: every (decision, context) sequence of length <= 8 over 2 contexts (thorough: sampled up to 12) plus seeded sequences "
              "up to 1000 (thorough 10^5) decisions, 1/2/19 contexts, bias 0..100%: the real MQEncoder/MQDecoder registers are "
              "compared with the Annex C machine after every decision; T1: the 64 code-block styles x block shapes 1x1..64x64 x "
-             "orientation x magnitudes up to 2^24, all 3*planes-2 passes, decoded with the reported pass lengths; DWT: every "
+             "orientation x magnitudes up to 2^24 and a dense sweep of 1000 (thorough 6000) random blocks up to 24x24 per style, all "
+             "3*planes-2 passes, decoded with the reported pass lengths; the encoder's bytes of blocks up to 36 (thorough 100) samples "
+             "are also decoded by the T.800 Annex D reference block decoder of spec/T1.tla (+ MQ.tla) with the reported segment "
+             "lengths (t1_reference_decoder: agree / differ under the vertically-causal style / differ otherwise; informational, C20 "
+             "only requires the library's coder to invert itself); DWT: every "
              "w,h <= 6 (thorough 12) x levels 0..3 x origin parity plus seeded sizes up to 257, levels 0..8, origins 0..7, values up "
              "to 2^28; RCT: triples incl. extremes up to 2^28. distinct_nontrivial = distinct T1 (style, orientation, shape class) and "
              "DWT (shape class, levels, parity) tuples",
         assumptions=["spec/MQ.tla (T.800 Annex C, Table C.2) and spec/Dwt53.tla (Annex F, G.2) are faithful transcriptions; both are "
                      "model-checked for exact invertibility in small scope",
-                     "EBCOT T1 is not transcribed: it is checked at contract level (block identity) only",
+                     "spec/T1.tla transcribes Annex D (all six style bits); MC_T1 model-checks DecodeBlock(EncodeBlock(x)) = x in small "
+                     "scope; against the library it is an informational second opinion, the verdict on T1 is block identity",
                      "forward 5/3 coefficients are compared with the Annex F lifting for blocks up to 400 samples and differences are "
                      "reported as INFO, not as violations (C20 only requires invertibility)"],
-        extra={"driver_stats": stats, "mq_decisions_stepped": steps, "forward_dwt_info_lines": len(fwd_info), "forward_dwt_info_samples": fwd_info[:3]},
+        extra={"driver_stats": stats, "mq_decisions_stepped": steps, "forward_dwt_info_lines": len(fwd_info), "forward_dwt_info_samples": fwd_info[:3],
+               "t1_reference_decoder": t1ref, "t1_reference_decoder_other_samples": t1_other[:3]},
         distinct=len(classes))
